@@ -108,7 +108,8 @@ def apiOp (d : DS) (op : String) : DS × String × List Out :=
 
 def run : List String → String
   | ["script", boot, script] =>
-    let ops := script.splitOn ","
+    -- a leading "q<n>" sets the AnswerQueueSize of the harness's capabilities; the model's queues are unbounded
+    let ops := (script.splitOn ",").filter (fun o => !(o.startsWith "q"))
     let init : RS := if boot == "1" then {} else { hasBoot := false, refs := [], nCaps := 0 }
     let (_, out) := ops.foldl (fun (acc : DS × List String) op =>
       let (d, out) := acc
